@@ -45,7 +45,15 @@ def dim_value(d):
 
 def norm_dim(d):
     v = dim_value(d)
-    return v if v is not None else z3.simplify(I(d))
+    if v is not None:
+        return v
+    t = z3.simplify(I(d))
+    c = cur_opt()
+    if c is not None and not z3.is_const(t):
+        t = c.prune(t)
+        if z3.is_int_value(t):
+            return t.as_long()
+    return t
 
 
 def same_dim(a, b):
@@ -112,7 +120,37 @@ def kind_of_term(t):
     raise Unsupported(f"element sort {s}")
 
 
+def memo(f):
+    """closures are pure functions of the index terms: memoise per index tuple, so that chains of in-place updates
+    (each new content closure refers to the old one several times) are evaluated once per index"""
+    if getattr(f, "_memo", False):
+        return f
+    cache = {}
+
+    def g(*idx):
+        idx = tuple(as_int_term(i) for i in idx)
+        key = tuple(i.get_id() for i in idx)
+        hit = cache.get(key)
+        if hit is not None:
+            return hit[1]
+        v = f(*idx)
+        if len(cache) > 4096:
+            cache.clear()
+        cache[key] = (idx, v)       # the index terms are kept alive: z3 recycles ids
+        return v
+    g._memo = True
+    return g
+
+
 class Buffer:
+    @property
+    def f(self):
+        return self._f
+
+    @f.setter
+    def f(self, fn):
+        self._f = memo(fn)
+
     def __init__(self, f, kind, fresh=True, label=""):
         self.id = next(_buf_ids)
         self.f = f                      # closure (*index terms) -> element term; replaced on writes
@@ -142,7 +180,7 @@ def scalar_term(x, kind=None):
         t = z3.BoolVal(bool(x))
     elif isinstance(x, (numbers.Integral, _np.integer)):
         t = z3.IntVal(int(x))
-    elif isinstance(x, SElem):
+    elif isinstance(x, (SElem, SBV)):
         t = x.t
     elif z3.is_expr(x):
         t = x
@@ -196,6 +234,7 @@ def UF(name, *sorts):
 
 class SElem:
     """symbolic scalar of the abstract element sort (a cell of a data array)"""
+    __array_ufunc__ = None
     ndim = 0
     shape = ()
     size = 1
@@ -236,8 +275,63 @@ class SElem:
 numbers.Number.register(SElem)
 
 
+class SBV:
+    """symbolic 64-bit register value (numpy uint64 scalar)"""
+    ndim = 0
+    shape = ()
+    size = 1
+    __array_ufunc__ = None
+
+    def __init__(self, t, dtype=None):
+        self.t = t
+        self.dtype = _np.dtype(dtype) if dtype is not None else _np.dtype(_np.uint64)
+
+    def __repr__(self):
+        return f"SBV({self.t})"
+
+    def item(self):
+        return self
+
+    def astype(self, dtype, **kw):
+        return SBV(self.t, dtype)
+
+    def _bin(self, o, name, rev=False):
+        if isinstance(o, SymArr):
+            return NotImplemented
+        try:
+            to = scalar_term(o, "bv")
+        except Unsupported:
+            return NotImplemented
+        a, b = (to, self.t) if rev else (self.t, to)
+        return wrap_scalar(apply_binary(name, a, b), self.dtype)
+
+    def __and__(self, o): return self._bin(o, "bitwise_and")
+    def __rand__(self, o): return self._bin(o, "bitwise_and", True)
+    def __or__(self, o): return self._bin(o, "bitwise_or")
+    def __ror__(self, o): return self._bin(o, "bitwise_or", True)
+    def __xor__(self, o): return self._bin(o, "bitwise_xor")
+    def __rxor__(self, o): return self._bin(o, "bitwise_xor", True)
+    def __lshift__(self, o): return self._bin(o, "left_shift")
+    def __rlshift__(self, o): return self._bin(o, "left_shift", True)
+    def __rshift__(self, o): return self._bin(o, "right_shift")
+    def __rrshift__(self, o): return self._bin(o, "right_shift", True)
+    def __add__(self, o): return self._bin(o, "add")
+    def __radd__(self, o): return self._bin(o, "add", True)
+    def __sub__(self, o): return self._bin(o, "subtract")
+    def __rsub__(self, o): return self._bin(o, "subtract", True)
+    def __eq__(self, o): return self._bin(o, "equal")
+    def __ne__(self, o): return self._bin(o, "not_equal")
+    def __invert__(self): return SBV(~self.t, self.dtype)
+    __hash__ = object.__hash__
+
+
+numbers.Number.register(SBV)
+
+
 def wrap_scalar(t, dtype=None):
     k = kind_of_term(t)
+    if k == "bv":
+        return SBV(z3.simplify(t), dtype)
     if k == "int":
         return SInt(z3.simplify(t), dtype)
     if k == "bool":
@@ -772,7 +866,7 @@ def as_operand(x):
     """-> ('scalar', term, dtype) | ('array', SymArr)"""
     if isinstance(x, SymArr):
         return ("array", x)
-    if isinstance(x, (SInt, SBool, SElem)):
+    if isinstance(x, (SInt, SBool, SElem, SBV)):
         return ("scalar", x.t, x.dtype)
     if isinstance(x, (bool, _np.bool_)):
         return ("scalar", z3.BoolVal(bool(x)), _np.dtype(bool))
@@ -958,7 +1052,11 @@ def slice_axis(n, s):
     nn = n if nv is not None else SInt(dim_term(n))
     first, count, step = pyslice(nn if nv is None else nv, start, stop, step)
     cnt = norm_dim(count)
-    return I(first), cnt, I(step)
+    ft = I(first)
+    c = cur_opt()
+    if c is not None and not z3.is_const(ft) and not z3.is_int_value(ft):
+        ft = c.prune(ft)
+    return ft, cnt, I(step)
 
 
 def getitem(arr, idx):
@@ -1067,6 +1165,18 @@ def getitem_nd(arr, idx):
         return wrap_scalar(arr.buf.f(*new_addr()), arr.dtype)
     r = SymArr(tuple(out_shape), arr.buf, new_addr, arr.dtype)
     r.contiguous = False
+    if arr.contiguous and all(k == "slice" for k, _ in builders):
+        shp = tuple(out_shape)
+
+        def inv(*p):
+            conds, lis = [], []
+            for (kind, (first, step)), pa, cnt in zip(builders, p, shp):
+                d = pa - first
+                li = py_floordiv(d, step)
+                conds += [py_mod(d, step) == 0, li >= 0, li < dim_term(cnt)]
+                lis.append(li)
+            return z3.And(*conds), tuple(lis)
+        r.inv = inv
     return r
 
 
@@ -1175,8 +1285,32 @@ def value_fn(value, shape, kind):
     return lambda *i: coerce_term(vs(*mb(i)), kind)
 
 
+_PROBES = [z3.Int("probe!a"), z3.Int("probe!b")]
+
+
+def same_view(a, b):
+    """both are views of the same buffer with syntactically identical address maps and shapes"""
+    if not (isinstance(a, SymArr) and isinstance(b, SymArr)) or a.buf is not b.buf or a.ndim != b.ndim:
+        return False
+    if not all(same_dim(x, y) for x, y in zip(a.shape_, b.shape_)):
+        return False
+    pr = _PROBES[: a.ndim]
+    try:
+        return all(z3.simplify(I(x)).eq(z3.simplify(I(y))) for x, y in zip(a.addr(*pr), b.addr(*pr)))
+    except Exception:
+        return False
+
+
 def setitem(arr, idx, value):
     c = cur()
+    if isinstance(value, SymArr) and value.buf is arr.buf and isinstance(idx, (slice, tuple)):
+        # `a[s] op= x` ends with a[s] = (the view a[s] itself): copying a view onto itself changes nothing
+        try:
+            sub0 = getitem(arr, idx)
+        except Exception:
+            sub0 = None
+        if sub0 is not None and same_view(sub0, value):
+            return
     if idx is Ellipsis or (isinstance(idx, slice) and idx == slice(None)) or (isinstance(idx, tuple) and len(idx) == 0):
         vf = value_fn(value, arr.shape_, arr.kind)
         assign_all(arr, vf)
@@ -1190,8 +1324,9 @@ def setitem(arr, idx, value):
         raise Unsupported("nd assignment")
     if arr.ndim != 1:
         sub = getitem(arr, idx)
-        if isinstance(sub, SymArr) and sub.buf is arr.buf:
-            return write_view(sub, arr, value)
+        if isinstance(sub, SymArr) and sub.buf is arr.buf and getattr(sub, "inv", None) is not None:
+            assign_all(sub, value_fn(value, sub.shape_, arr.kind))
+            return
         raise Unsupported("assignment into a 2-D array with this index")
     n = arr.shape_[0]
     if isinstance(idx, slice):
